@@ -49,6 +49,7 @@ def main(argv):
     for sid in ids:
         d = os.path.join(SEEDED, sid)
         meta = json.load(open(os.path.join(d, "meta.json")))
+        keep_replays = set(os.listdir(os.path.join(VERIF, "replays")))
         scratch = tempfile.mkdtemp(prefix="seeded-")
         res = {"property": meta["property"], "checks": {}}
         try:
@@ -88,7 +89,7 @@ def main(argv):
             shutil.rmtree(scratch, ignore_errors=True)
             # replays written while checking a changed tree are not kept
             for f in os.listdir(os.path.join(VERIF, "replays")):
-                if f.endswith(".json"):
+                if f.endswith(".json") and f not in keep_replays:
                     os.remove(os.path.join(VERIF, "replays", f))
         results[sid] = res
         print(sid, json.dumps(res)[:600])
